@@ -95,6 +95,16 @@ Section C03.
   Qed.
 End C03.
 
+(** the history of the seeded change C03-10 (Full variant; QueryMatters variant WITHOUT a query; the same with a query) on
+    the model without the key-kind guard — with which that change coincides on query-less requests —: the QueryMatters
+    variant joins the path-keyed entry and /v?id=7 is answered with the response computed for /v *)
+Theorem qm_queryless_variant_refuted :
+  bodies (run_cfgx true w6_cx w6q_ops) = [B "static-a"; B "b:/v"; B "b:/v"; B "b:/v"] /\
+  bodies (run_cfgx false w6_cx w6q_ops) = [B "static-a"; B "b:/v"; B "b:/v?id=7"; B "b:/v"] /\
+  map (fun '(k, e) => (k, map (fun v => (v_tuple v, qmx (v_resp v))) (ex_vars e))) (fst (fst (run_cfgx_state true w6_cx w6q_ops)))
+  = [(KPath (B "/v"), [([B "b"], true); ([B "a"], false)])].
+Proof. exact qm_queryless_variant_refuted_w. Qed.
+
 Example c03_ex_qm_queryless_variant :
   bodies (run_cfgx true w6r_cx w6q_ops) = [B "static-a"; B "b:/v"; B "b:/v?id=7"; B "b:/v"] /\
   bodies (run_cfgx false w6r_cx w6q_ops) = [B "static-a"; B "b:/v"; B "b:/v?id=7"; B "b:/v"] /\
